@@ -83,6 +83,20 @@ def ends_with_alias(v) -> bool:
     return count_marker(v, MARK)[1] == 0
 
 
+def _attr_owner(c, attr: str) -> str:
+    """most basic class of c's hierarchy that assigns self.<attr> (the class the operand belongs to)"""
+    import ast as _a
+    for k in reversed(c.mro):
+        for f in k.methods.values():
+            if not f.params or f.is_static:
+                continue
+            sn = f.params[0]
+            for n in _a.walk(f.node):
+                if isinstance(n, _a.Attribute) and n.attr == attr and isinstance(n.ctx, _a.Store) and isinstance(n.value, _a.Name) and n.value.id == sn:
+                    return k.qualname
+    return c.qualname
+
+
 def check(program: Program, run: Run) -> None:
     run.explanation = (
         "Per-class render skeletons (symbolic evaluation of every Term subclass's effective get_sql, helpers inlined "
@@ -141,10 +155,11 @@ def check(program: Program, run: Run) -> None:
             run.ob("C12/R2 operand slot turns alias printing off", f"{c.qualname}:{rp}", good,
                    detail=f"with_alias={show(part.ctx.fields['with_alias'])}", where=f"{part.src[2]}:{part.src[1]}" if part.src else "")
             if not good:
-                srccls = part.src[0].rsplit(".", 1)[0] if part.src else f.cls.qualname
+                srccls = None    # keyed by the class that owns the operand attribute (stable when the rendering code moves to a base class or helper)
                 ra2 = ra + ("[]" if "[]" in rp else "")
                 if rp.startswith("all("):
                     ra2 = rp[4:].rstrip(")") + "[]"    # Criterion.all(self._filters): the same operands as a loop over _filters
+                srccls = _attr_owner(c, ra2.replace("[]", ""))
                 seen_r2.setdefault((srccls, ra2), (part, c))
     for (dc, k), classes in sorted(seen_r1.items()):
         what = {"never": "never emits its alias: an aliased instance in a defining position silently loses the name",
